@@ -345,7 +345,12 @@ func constIdxSites(prog *Program, rel string) (sites []idxSite, examined int) {
 }
 
 // constIdxExceptions: sites confirmed by reading, keyed rel.func:expr[k].
-var constIdxExceptions = map[string]string{}
+var constIdxExceptions = map[string]string{
+	"jp.Script.Append:bstack[0]":       "the template of a compiled script holds at least one element (the parser rejects an empty filter), so the print stack built from it does too",
+	"jp.Script.evalWithRoot:x[0]":      "operand paths in a template come from the path parser, which produces no empty path",
+	"jp.Script.evalWithRoot:xstack[0]": "the evaluation stack has the template's length, at least one",
+	"jp.Script.evalWithRoot:sstack[0]": "the evaluation stack has the template's length, at least one",
+}
 
 func ruleConstIdx(prog *Program, rep *Report, floor int, inScope func(rel, fn string) bool, rels ...string) {
 	rep.Rules = append(rep.Rules, "E-constidx: every index s[k] with a constant k on a string or slice whose length is not fixed in the function is dominated by a length test that implies k < len(s) (conjunct of an enclosing condition, earlier operand of the same && / || chain, earlier `if len(s) .. { leave }`, earlier case of the tagless switch, case of `switch len(s)`, s != \"\"): no input shorter than expected panics with index out of range")
